@@ -20,7 +20,7 @@ LOCAL_NAMES = ["tmp", "i0", "acc"]
 INNER_NAMES = ["helper", "inner", "init"]
 
 COQ_KIND = {"module": "KModule", "function": "KFunction", "subroutine": "KSubroutine", "generic": "KGeneric",
-            "absint": "KAbsInt", "type": "KType", "var": "KVar", "bound": "KBound"}
+            "absint": "KAbsInt", "type": "KType", "var": "KVar", "bound": "KBound", "alias": "KAlias"}
 COQ_PERM = {"public": "Public", "private": "Private", "protected": "Protected"}
 DISPLAYS = [["public", "protected"], ["public", "protected"], ["public", "protected"], ["protected", "public"],
             ["public", "private", "protected"], ["private"], ["public"], ["public", "private"], []]
@@ -125,6 +125,10 @@ def gen_A(rng, knobs=None):
                 if e["kind"] in ("type", "function", "subroutine") and rng.random() < 0.8:
                     e["perm"] = "public"
         mods.append(m)
+    if knobs.get("facade", rng.random() < 0.45):
+        fac = gen_facade(rng, ids, mods)
+        if fac:
+            mods.append(fac)
     top = []
     if rng.random() < 0.3:
         top = [rng.choice(PROC_NAMES)]
@@ -132,7 +136,44 @@ def gen_A(rng, knobs=None):
             "one_file": rng.random() < 0.3}
 
 
+def gen_facade(rng, ids, mods):
+    """a module that makes entities of other modules accessible again, some under other names
+    (`use src, only: local => own`); an alias node carries the id of the defining module and the entity"""
+    used_mod = {m["name"].lower() for m in mods}
+    names = [n for n in ("api_mod", "facade", "Kit") if n.lower() not in used_mod]
+    if not names:
+        return None
+    default = rng.choice(["public", "public", "private"])
+    fac = {"id": ids(), "kind": "module", "name": rng.choice(names), "perm": default, "kids": [], "uses": []}
+    taken = set()
+    for src in rng.sample(mods, k=min(len(mods), rng.choice([1, 2, 2]))):
+        cands = [e for e in src["kids"] if e["kind"] in ("function", "subroutine", "generic", "absint", "type", "var")
+                 and e["perm"] != "private"]
+        rng.shuffle(cands)
+        items = []
+        for i, e in enumerate(cands[:rng.choice([1, 2, 3])]):
+            own = e["name"]
+            local = rng.choice([own, f"new_{own}", f"{own}_v{i}", f"{own}_legacy"])
+            if local.lower() in taken:
+                local = f"{own}_of_{src['name']}"
+            if local.lower() in taken:
+                continue
+            taken.add(local.lower())
+            perm = "public" if default == "public" else rng.choice(["public", "public", "private"])
+            fac["kids"].append({"id": src["id"], "kind": "alias", "name": local, "perm": perm, "kids": [e]})
+            items.append((local, e))
+        if items:
+            fac["uses"].append({"src": src, "items": items})
+    if not fac["uses"]:
+        return None
+    if rng.random() < 0.5 and "own_level" not in taken:
+        fac["kids"].append({"id": ids(), "kind": "var", "name": "own_level", "perm": default, "kids": []})
+    return fac
+
+
 def walk(e, parent=None):
+    if e["kind"] == "alias":        # not an entity of its own: the entity is reached in its defining module
+        return
     yield e, parent
     for k in e["kids"]:
         yield from walk(k, e)
@@ -179,10 +220,17 @@ def _render_proc(p, ind, internal=False):
 
 def render_module(m, rng=None):
     default = m["perm"]
-    out = f"module {m['name']}\n" + _doc(m, "  ") + "  implicit none\n"
+    out = f"module {m['name']}\n" + _doc(m, "  ")
+    for u in m.get("uses", []):
+        items = [(l if l.lower() == e["name"].lower() else f"{l} => {e['name']}") for l, e in u["items"]]
+        out += f"  use {u['src']['name']}, only: {', '.join(items)}\n"
+    out += "  implicit none\n"
     if default == "private":
         out += "  private\n"
     stmts = []
+    for e in m["kids"]:
+        if e["kind"] == "alias" and default == "private" and e["perm"] == "public":
+            stmts.append(f"  public :: {e['name']}\n")
     for e in m["kids"]:
         if e["kind"] in ("function", "subroutine", "generic", "absint", "type"):
             if e["perm"] != default or (e["id"] % 3 == 0):
@@ -281,6 +329,26 @@ def importable(e):
     return e["perm"] != "private" and e["kind"] in ("function", "subroutine", "generic", "absint", "type", "var")
 
 
+def ln(e):
+    """the name under which B's source refers to an imported entity (its own name unless re-exported renamed)"""
+    return e.get("local", e["name"])
+
+
+def views(am):
+    """what B can import from module am: its own accessible entities, and for every accessible alias the entity
+    behind it, to be named by the alias's local name"""
+    out = []
+    for e in am["kids"]:
+        if e["kind"] == "alias":
+            if e["perm"] != "private":
+                v = dict(e["kids"][0])
+                v.update({"local": e["name"], "perm": e["perm"], "alias": True})
+                out.append(v)
+        elif importable(e):
+            out.append(e)
+    return out
+
+
 def gen_B(rng, A, doc_refs):
     """B refers to A's modules, types (extension, components, variables), procedures (calls), generic
     interfaces, variables, and (doc_refs) [[...]] references.  Name clashes: B may define a module named like
@@ -297,9 +365,9 @@ def gen_B(rng, A, doc_refs):
         for am in rng.sample(amods, k=min(len(amods), rng.choice([1, 1, 2]))):
             if clash_mod and am["name"].lower() == clash_mod.lower():
                 continue
-            allimps = [e for e in am["kids"] if importable(e)]
+            allimps = views(am)
             taken = {n.lower() for u in bm["uses"] for n in u["names"]}
-            imps = [e for e in allimps if e["name"].lower() not in taken]
+            imps = [e for e in allimps if ln(e).lower() not in taken]
             clash = len(imps) != len(allimps)
             if imps and (clash or rng.random() < 0.8):
                 chosen = rng.sample(imps, k=rng.choice(range(1, len(imps) + 1)))
@@ -308,7 +376,7 @@ def gen_B(rng, A, doc_refs):
                 continue
             else:
                 chosen, only = imps, False
-            bm["uses"].append({"amod": am, "only": only, "ents": chosen, "names": [e["name"] for e in chosen]})
+            bm["uses"].append({"amod": am, "only": only, "ents": chosen, "names": [ln(e) for e in chosen]})
         imported = [(u["amod"], e) for u in bm["uses"] for e in u["ents"]]
         ti = 0
         for am, e in imported:
@@ -326,8 +394,8 @@ def gen_B(rng, A, doc_refs):
         if callees or usedvars or rng.random() < 0.5:
             bm["procs"].append({"name": f"{bname}_go", "calls": callees, "vars": usedvars})
         # own entities whose names clash with entities of A that this module does not import
-        imported_names = {e["name"].lower() for _, e in imported}
-        visible_all = {e["name"].lower() for u in bm["uses"] for e in u["amod"]["kids"]}
+        imported_names = {ln(e).lower() for _, e in imported}
+        visible_all = {x.lower() for u in bm["uses"] for e in u["amod"]["kids"] for x in (e["name"],)}
         for am in amods:
             for e in am["kids"]:
                 if e["name"].lower() in visible_all or e["name"].lower() in {o["name"].lower() for o in bm["own"]}:
@@ -338,6 +406,8 @@ def gen_B(rng, A, doc_refs):
                     bm["own"].append({"kind": "subroutine", "name": e["name"]})
         if doc_refs:
             for am, e in imported:
+                if e.get("alias"):
+                    continue        # [[facade:local]] finds no child of that name in the facade module
                 if rng.random() < 0.7:
                     bm["refs"].append({"text": f"[[{am['name']}:{e['name']}]]", "amod": am, "ent": e, "qualified": True})
                 if rng.random() < 0.3:
@@ -355,7 +425,8 @@ def gen_B(rng, A, doc_refs):
         for bm in bmods:
             for u in bm["uses"]:
                 for e in u["ents"]:
-                    if e["kind"] != "type" or e["name"].lower() in own_types or a_types.count(e["name"].lower()) != 1:
+                    if e.get("alias") or e["kind"] != "type" or e["name"].lower() in own_types \
+                            or a_types.count(e["name"].lower()) != 1:
                         continue
                     if e["perm"] not in A["display"]:
                         continue
@@ -387,15 +458,15 @@ def render_B(B):
                 out += f"  use {u['amod']['name']}\n"
         out += "  implicit none\n"
         for v in bm["vars"]:
-            out += f"  type({v['type']['name']}) :: {v['name']}\n    !! a variable of B\n"
+            out += f"  type({ln(v['type'])}) :: {v['name']}\n    !! a variable of B\n"
         for o in bm["own"]:
             if o["kind"] == "type":
                 out += f"  type :: {o['name']}\n    !! own type of B\n    integer :: own_comp\n  end type {o['name']}\n"
         for t in bm["types"]:
-            ext = f", extends({t['extends']['name']})" if t["extends"] else ""
+            ext = f", extends({ln(t['extends'])})" if t["extends"] else ""
             out += f"  type{ext} :: {t['name']}\n    !! a type of B\n"
             for j, c in enumerate(t["comps"]):
-                out += f"    type({c['name']}) :: part{j}\n"
+                out += f"    type({ln(c)}) :: part{j}\n"
             out += "    integer :: extra\n"
             out += f"  end type {t['name']}\n"
         subs = [o for o in bm["own"] if o["kind"] == "subroutine"]
@@ -405,11 +476,11 @@ def render_B(B):
             out += f"  subroutine {p['name']}(x)\n    !! a procedure of B\n    integer, intent(inout) :: x\n"
             for c in p["calls"]:
                 if c["kind"] == "function":
-                    out += f"    x = {c['name']}(x)\n"
+                    out += f"    x = {ln(c)}(x)\n"
                 else:
-                    out += f"    call {c['name']}(x)\n"
+                    out += f"    call {ln(c)}(x)\n"
             for v in p["vars"]:
-                out += f"    x = x + {v['name']}\n"
+                out += f"    x = x + {ln(v)}\n"
             out += f"  end subroutine {p['name']}\n"
         for o in subs:
             out += (f"  subroutine {o['name']}(x)\n    !! own procedure of B\n    integer, intent(inout) :: x\n"
